@@ -113,7 +113,33 @@ func TestC17(t *testing.T) {
 			}
 		}
 	}
+	// cookie values with characters that mean something to a formatter, a shell or the environment block
+	for _, cv := range []string{"50%2Foff", "%s%d%v%%", "100%", "a=b=c", "with space", "quote'\"$HOME", "ünï"} {
+		for _, how := range []string{"first", "cmd"} {
+			op := "env"
+			if how == "cmd" {
+				op = "env:cmd"
+			}
+			cells = append(cells, Cell{
+				Name:   fmt.Sprintf("host-half launch=%s legacy=1 versioned=[] AutoMTLS=false mux=false SkipHostEnv=true group=\"\" ports=[0 0] ambient=[] cookie=%q", how, cv),
+				Plugin: PluginConf{CookieKey: cookieKey, CookieValue: cv, Legacy: 1, LegacyProto: "netrpc", GRPCServer: true, TLS: "none"},
+				Host:   HostConf{TLS: "none", Launch: "runner", Legacy: 1, SkipHostEnv: true, CookieValue: cv},
+				Ops:    []string{op},
+			})
+			kind = append(kind, "host")
+		}
+	}
 	nHost := len(cells)
+	// ... and end to end: a real plugin served with the same handshake configuration must start
+	for _, cv := range []string{"50%2Foff", "%s%d%v%%", "a=b=c"} {
+		cells = append(cells, Cell{
+			Name:   fmt.Sprintf("plugin-half netrpc AutoMTLS=false mux=false ambient=[] cookie=%q", cv),
+			Plugin: PluginConf{CookieKey: cookieKey, CookieValue: cv, Legacy: 1, LegacyProto: "netrpc", GRPCServer: true, TLS: "none"},
+			Host:   HostConf{Allowed: []string{"netrpc", "grpc"}, TLS: "none", Launch: "cmd", Legacy: 1, CookieValue: cv},
+			Ops:    []string{"new", "start", "client", "dispense", "set:5", "get", "callback", "ping", "kill"},
+		})
+		kind = append(kind, "plugin")
+	}
 	// ---- plugin half: a real Serve child launched from a host with ambient variables
 	for _, proto := range []string{"netrpc", "grpc"} {
 		for _, auto := range []bool{false, true} {
@@ -176,8 +202,12 @@ func TestC17(t *testing.T) {
 			k, v, _ := strings.Cut(kv, "=")
 			eff[k] = v
 		}
-		if eff[cookieKey] != cookieVal {
-			bad("magic cookie handed to the command is %q", eff[cookieKey])
+		wantCookie := cookieVal
+		if c.Host.CookieValue != "" {
+			wantCookie = c.Host.CookieValue
+		}
+		if eff[cookieKey] != wantCookie {
+			bad("magic cookie handed to the command is %q, configured %q", eff[cookieKey], wantCookie)
 		}
 		want := map[int]bool{}
 		for _, v := range c.Host.Versions {
